@@ -692,6 +692,35 @@ def lenstep(rep, c, sfx):
         fields = sorted(set(x["name"] for x in walk(ln["body"]) if kind(x) == "Field" and base_name(x["base"]) == "self"))
         r.instance("len:" + short, where(ln["body"]), "reads %s" % fields)
         if not (set(fields) & {"start", "end"}):
+            # cached counter (stepping discipline: C04.COUNT).  Here: the constructor counts over the WINDOW - the
+            # function that builds the struct uses its start and end parameters for more than storing them (a count
+            # over the whole token queue is right only for the outermost window)
+            for cb in c.bodies:
+                if cb.get("body") is None or cb.get("exp") or "::tests::" in cb["path"]:
+                    continue
+                lits = [x for x in walk(cb["body"]) if kind(x) == "Struct" and str(x.get("ty", "")).startswith(ty)]
+                if not lits or cb.get("impl_self") == ty:
+                    continue    # methods that copy an existing iterator (clone, flatten of self) carry the count over
+                ps = {p["name"]: p["id"] for p in cb["params"] if p.get("k") == "PBind" and p.get("name") in ("start", "end")}
+                if len(ps) != 2:
+                    continue
+                stored = set()
+                for lit in lits:
+                    for f in lit["fields"]:
+                        if f["name"] in ("start", "end") and hirq.local_id(f["e"]) in ps.values():
+                            stored.add(id(peel(f["e"])))
+                key = "ctor:%s:%s" % (short, cb["path"].split("::")[-1])
+                r.instance(key, where(cb["body"]), "cached `%s`" % ",".join(fields))
+                for nm, pid in ps.items():
+                    others = [x for x in walk(cb["body"]) if kind(x) == "Path" and x.get("res") == "local" and x["id"] == pid
+                              and id(x) not in stored]
+                    if not others:
+                        r.violation(key, where(cb["body"]),
+                                    "%s stores a pair count for %s::len() but never looks at its `%s` parameter while "
+                                    "computing it: the count is taken over something other than the window (e.g. the whole "
+                                    "token queue), so a flattened sub-tree claims all pairs of the document"
+                                    % (cb["path"].split("::")[-1], short, nm))
+                        break
             continue  # cached counter: C04.COUNT
         counting = any(kind(x) == "MethodCall" and x["m"] in ("count", "filter", "fold", "sum") for x in walk(ln["body"])) \
             or any(kind(x) == "Loop" for x in walk(ln["body"]))
